@@ -13,7 +13,7 @@ EXPLANATION = (
     "1..64. The two decoder DRIVERS by step contracts with the kernels as callee contracts (cuts): read_rle_bit_packed_hybrid (length "
     "prefix, loop test, dispatch on the header's low bit, frame, variant) and delta_binary_unpack (header, block header, miniblock "
     "dispatch + rewind, one arbitrary value slot: stored value, running sum, count, return condition, capacity invariant, frame); the "
-    "induction from step lemmas to whole streams is argued. Encoders / speedups byte arrays: see the obligation table when their "
+    "induction from step lemmas to whole streams is argued. The decoder's precondition on (itemsize, output element size, width) is an obligation at each of its call sites in core.py (`hybrid.*[site]`). Encoders / speedups byte arrays: see the obligation table when their "
     "contract modules are present, else bounded layer only; numpy-level boolean packing is numpy (assumed). "
     "The text / bytes rows of writer.convert -> encode_plain (`text.bytes_written_are_utf8_of_cell[...]`, backend `enumeration`) are EXECUTED on "
     "boundary values (NULs, empty, multi-byte UTF-8): complete for the dtype table, bounded in the value dimension - they are not part of the "
@@ -29,7 +29,13 @@ def p_deflevels(ctx):
     f(ctx)
 
 
+def p_callsites(ctx):
+    # the decoder's precondition (item size 1 or 4 == element size of the output, width <= 8 for one-byte items) at its callers in core.py
+    from ._callsites import p_callsites as f
+    f(ctx)
+
+
 def run(ctx):
     from ._generic import optional_parts
     extra = optional_parts(("_hybrid", "p_hybrid"), ("_encoders", "p_encoders"), ("_speedups", "p_speedups"), ("_units", "p_units"), ("_bookkeeping", "p_bookkeeping"))
-    return run_property(ctx, "proof", EXPLANATION, p_parts=[p_kernels, p_deflevels] + extra, b_modules=["c11_numpy_paths"])
+    return run_property(ctx, "proof", EXPLANATION, p_parts=[p_kernels, p_deflevels, p_callsites] + extra, b_modules=["c11_numpy_paths"])
